@@ -91,6 +91,10 @@ func runTransfer(raw json.RawMessage) (res *Result, err error) {
 		dest = &a
 	case "nptr": // pointer to the native Stack
 		dest = &dst
+	case "kept": // another handle to the same instance was released with Free: this one stays good
+		other := dst
+		other.Free()
+		dest = dst
 	case "ronly":
 		dst.SetReadOnly(true)
 		opts |= 128
@@ -196,7 +200,7 @@ func genTransfer(ctx *Ctx, emit func(any, string)) {
 	if !ctx.Quick() {
 		maxL = 5
 	}
-	forms := []string{"native", "alias", "ptr", "ronly", "nptr", "ronly-nptr", "ronly-alias", "ronly-ptr", "zero", "int", "nil"}
+	forms := []string{"native", "alias", "ptr", "ronly", "nptr", "kept", "ronly-nptr", "ronly-alias", "ronly-ptr", "zero", "int", "nil"}
 	for sl := 0; sl <= maxL; sl++ {
 		for dl := 0; dl <= maxL; dl++ {
 			caps := []int{0}
@@ -236,7 +240,7 @@ func genTransfer(ctx *Ctx, emit func(any, string)) {
 	n := ctx.N(300, 8000)
 	for i := 0; i < n; i++ {
 		r := ctx.Rng.Fork()
-		in := TransferInput{SrcFifo: r.Bool(), SrcMutex: r.Pct(40), SrcErr: r.Pct(30), Form: forms[r.Intn(8)], DstPol: -1}
+		in := TransferInput{SrcFifo: r.Bool(), SrcMutex: r.Pct(40), SrcErr: r.Pct(30), Form: forms[r.Intn(9)], DstPol: -1}
 		if r.Pct(30) {
 			in.Form = forms[r.Intn(len(forms))]
 		}
@@ -267,5 +271,5 @@ func genTransfer(ctx *Ctx, emit func(any, string)) {
 
 func init() {
 	register(&Family{Name: "transfer", Gen: genTransfer, Run: runTransfer,
-		Rule: "exhaustive: source length 0..3 (quick) / 0..5 x destination length x destination capacity {none, every k from dst length to dst+src+1} x destination form {native, alias, pointer to alias, pointer to native, read-only (native, pointer to native, alias, pointer to alias), zero Stack, int, nil} x source LIFO/FIFO x with/without a nil element; random: adds nested stacks, a table-driven push policy and the no-nesting option on the destination. Observed: return value, destination slots after, source slots after, destination configuration (VerifDump, all fields but err) unchanged. non-trivial = non-empty source and a destination that converts"})
+		Rule: "exhaustive: source length 0..3 (quick) / 0..5 x destination length x destination capacity {none, every k from dst length to dst+src+1} x destination form {native, alias, pointer to alias, pointer to native, a handle whose sibling handle was freed, read-only (native, pointer to native, alias, pointer to alias), zero Stack, int, nil} x source LIFO/FIFO x with/without a nil element; random: adds nested stacks, a table-driven push policy and the no-nesting option on the destination. Observed: return value, destination slots after, source slots after, destination configuration (VerifDump, all fields but err) unchanged. non-trivial = non-empty source and a destination that converts"})
 }
